@@ -289,6 +289,16 @@ def c12_families():
         "n": 2, "filters": f, "pre": [(0, ("new", 0, 5, "rlayer2")), (0, ("setdefault", 0)), (1, ("setdefault", 0)), (1, ("emit", 3))],
         "progs": [[("reload", 0, 1)], [("emit", 3), ("emit", 1)]],
         "post": [(1, ("emit", 3)), (0, ("emit", 1)), (0, ("reload", 0, 5)), (1, ("emit", 3))]}))
+    # two first hits of DIFFERENT callsites racing on the list head (one list CAS fails and retries), then a reload that flips both
+    # verdicts: a registration lost from the list keeps the verdict cached under the OLD value on every thread
+    fam.append(("two-firsthits-then-reload-to-rejecting", {
+        "n": 2, "filters": f, "pre": [(0, ("new", 0, 0, "rlayer")), (0, ("setdefault", 0)), (1, ("setdefault", 0))],
+        "progs": [[("emit", 3)], [("emit", 1)]],
+        "post": [(0, ("reload", 0, 2)), (0, ("emit", 3)), (0, ("emit", 1)), (1, ("emit", 3)), (1, ("emit", 1))]}))
+    fam.append(("two-firsthits-then-reload-to-accepting", {
+        "n": 2, "filters": f, "pre": [(0, ("new", 0, 2, "rlayer")), (0, ("setdefault", 0)), (1, ("setdefault", 0))],
+        "progs": [[("emit", 3)], [("emit", 1)]],
+        "post": [(1, ("reload", 0, 0)), (0, ("emit", 3)), (0, ("emit", 1)), (1, ("emit", 3)), (1, ("emit", 1))]}))
     # two reloads whose rebuilds would race on MAX_LEVEL if rebuilds were not serialised: the later assignment (TRACE) must win
     fam.append(("two-reloads-max-level", {
         "n": 2, "filters": f, "pre": [(0, ("new", 0, 0, "rlayer")), (0, ("setdefault", 0)), (1, ("setdefault", 0)), (1, ("emit", 3))],
